@@ -47,6 +47,8 @@ pub fn warm_up(u: &mut Universe) -> Result<(), String> {
     let jobs = vec![vec![
         OpSpec::new(Op::Resolve { path: "wl/f".into(), nofollow: false }).store(1),
         OpSpec::new(Op::Reopen { slot: 1, flags: libc::O_RDONLY }),
+        // a *trailing* link: the emulated resolver reads (and caches) fs.protected_symlinks only for those
+        OpSpec::new(Op::Resolve { path: "wl".into(), nofollow: false }),
         OpSpec::new(Op::MkdirAll { path: "warm/x".into(), mode: 0o755 }),
         OpSpec::new(Op::Resolve { path: "nonexistent".into(), nofollow: false }).c(),
     ]];
